@@ -69,7 +69,7 @@ var epNames = [][]byte{[]byte("a"), []byte("b"), []byte("c"), []byte("other"), [
 func genEndpoint(r *rand.Rand) Input {
 	g := &genCtx{r: r, left: lib.Range(r, 1, 12), maxDepth: lib.Range(r, 1, 4), selfs: smallSelf}
 	in := Input{Kind: "endpoint", Via: "endpoint", Slots: 1}
-	switch r.Intn(5) {
+	switch r.Intn(6) {
 	case 0: // several slots: storage keeps floor-scaled copies per bucket and merges them back
 		in.Slots = lib.Pick(r, []int{2, 3, 8})
 		g.selfs = []uint64{0, 1, 3, 5, 7, 9, 11, 101}
@@ -81,6 +81,9 @@ func genEndpoint(r *rand.Rand) Input {
 	case 2:
 		g.selfs = []uint64{0, 0, 0, 1}
 		in.Kind = "endpoint-zeros"
+	case 3: // bytes-unit profile: totals in 2^31 .. 2^40
+		g.selfs = hugeSelf
+		in.Kind = "endpoint-huge"
 	}
 	// genCtx.node draws child names from the global alphabet; redraw them from the JSON-safe one
 	in.Tree = g.node([]byte(""), 0)
